@@ -73,6 +73,8 @@ def run_history(rec, sc, assemblage=None, fractions=None, F0=None, collect=None)
                 out["fails"].append((k, f"orthonormality error {err:.3e} exceeds {bound:.3e}"))
             if np.linalg.det(np.asarray(O)).min() <= 0:
                 out["fails"].append((k, "left-handed orientation matrix"))
+        if desc.get("mutated"):
+            out["fails"].append((k, "the array returned by the caller's velocity-gradient callable was modified in place by the update"))
         F = Fn
         out["F_hist"].append(F.copy())
         t += dt
@@ -153,6 +155,12 @@ def scenarios(chk, tier, regimes=(4, 4, 4, 6, 0, 7), extra_diffusion=True):
         sc = MT.scenario(rng, regime=r1, nupd=2, lkind="simple")
         sc["regime_switch"] = [r1, r2, float(rng.uniform(0.05, 0.3))]
         scs.append(sc)
+    # get_regime overrides, from the very first evaluation, the regime the mineral was constructed with
+    for built, given in ((4, 0), (4, 7), (0, 4), (4, 6)):
+        sc = MT.scenario(rng, regime=built, nupd=2, lkind="general")
+        sc["regime_switch"] = [given, given, 0.0]
+        scs.append(sc)
+    scs.append(MT.scenario(rng, regime=4, nupd=2, lkind="shared"))
     if tier == "thorough":
         scs.append(MT.scenario(rng, regime=4, n=500, nupd=2))
         scs.append(MT.scenario(rng, regime=4, n=20, nupd=100, strain=3.0))
